@@ -106,7 +106,11 @@ def c02_judge_line(x):
     nerr = sum(1 for o in outs if o.startswith("status ") or o == "raw400")
     framed = not any(o.startswith("garbled") or "framed=0" in o for o in outs)
     exc = d.get("exc", "-") != "-"
-    probe_ok = d.get("probe") == "ok" and d.get("pcalls") == "1"
+    # handler calls are counted over the case and the probe that follows it: the probe accounts for exactly one
+    # (a worker may still be running the case's request when the probe starts, esp. after a peer reset)
+    pcalls = int(d.get("pcalls", "0"))
+    probe_ok = d.get("probe") == "ok" and pcalls >= 1
+    ready = ready + pcalls - 1 if pcalls >= 1 else ready
     closed = "C" in d.get("flags", "") and "T" not in d.get("flags", "")
     b = lambda v: "1" if v else "0"
     return (f"J c02 {b(exc)} {b(probe_ok)} {b(closed)} {b(x.mode == 'rst')} {pre} {ready} {onerr} {n200} {nerr} {b(framed)} "
